@@ -780,6 +780,31 @@ func attrCount(s string) int {
 // modifying it (the second handle's view depends on re-reading what the first one wrote).
 func c17WriterScript(k int) *hx.Script {
 	s := c07LibScript(k)
+	if k%3 == 2 {
+		// variable-length data that fills several global heap collections (each full
+		// collection is written out when the next one is started)
+		r := ev.NewRand(17, "C17-writer-vlen", k)
+		n := r.Range(120, 260)
+		strs := make([]string, n)
+		for i := range strs {
+			b := r.Bytes(r.Range(8, 70))
+			for j := range b {
+				b[j] = 'a' + b[j]%26
+			}
+			strs[i] = string(b)
+		}
+		v := hx.Val{Kind: "vstr", S: strs}
+		s.Ops = append(s.Ops, hx.Op{K: "create_ds", Path: "/vroll", DT: "vstr", Dims: []uint64{uint64(n)}, Data: &v})
+		seqs := make([][]uint64, 90)
+		for i := range seqs {
+			seqs[i] = make([]uint64, r.Range(0, 40))
+			for j := range seqs[i] {
+				seqs[i][j] = uint64(r.Intn(1 << 20))
+			}
+		}
+		w := hx.Val{Kind: "v[]i32", VU: seqs}
+		s.Ops = append(s.Ops, hx.Op{K: "create_ds", Path: "/vroll_i32", DT: "v[]i32", Dims: []uint64{90}, Data: &w})
+	}
 	if k%2 == 1 {
 		target := ""
 		for _, op := range s.Ops {
@@ -831,6 +856,11 @@ func c17WriteFaults(c *ev.Ctx, cs c17Case) {
 		return
 	}
 	refDump := dump.File(out, dump.Options{})
+	refCopy := filepath.Join(c.Dir, "w.ref.h5")
+	if fb, err := os.ReadFile(out); err == nil {
+		_ = os.WriteFile(refCopy, fb, 0o644)
+	}
+	var refDigest map[string]string
 	ran, injected, swallowed := 0, 0, 0
 	intactLog, _ := os.ReadFile(logPath)
 	intactLogPath := filepath.Join(c.Dir, "strace.intact.log")
@@ -928,6 +958,26 @@ func c17WriteFaults(c *ev.Ctx, cs c17Case) {
 			}
 			if diff := dump.Diff(refDump, fd, nil); len(diff) > 0 {
 				c.Violation("write-fault:swallowed:content-differs:"+fk.sys, map[string]any{"fault": fault, "paths": diff, "reference": trunc40(logicalOf(refDump, diff[0])), "faulty": trunc40(logicalOf(fd, diff[0]))})
+				continue
+			}
+			// the same through the independent decoder, which also reads what the library has
+			// no reader for (variable-length data)
+			if refDigest == nil {
+				refDigest, _ = specDigest(refCopy)
+			}
+			if refDigest != nil {
+				gd, gerr := specDigest(out)
+				var paths []string
+				for p, want := range refDigest {
+					if gerr != nil || gd[p] != want {
+						paths = append(paths, p)
+					}
+				}
+				sort.Strings(paths)
+				c.Count("W:swallowed_faults_compared_through_decoder", 1)
+				if len(paths) > 0 {
+					c.Violation("write-fault:swallowed:decoded-content-differs:"+fk.sys, map[string]any{"fault": fault, "paths": paths, "reference": trunc40(refDigest[paths[0]]), "faulty": trunc40(gd[paths[0]]), "decode_error": fmt.Sprint(gerr)})
+				}
 			}
 		}
 		subBase += 100000
@@ -941,7 +991,7 @@ func c17WriteFaults(c *ev.Ctx, cs c17Case) {
 var C17 = &ev.Property{
 	ID:    "C17",
 	Level: "fault_enumeration",
-	Rule: "seed files: the 24 fixed library-written files of C07 (quick: 12) and, of the corpus files up to 64 KiB (space T: all of them in the thorough tier, every 10th plus a cover of 8 in the quick tier), every 4th (quick: 40th) plus a greedy cover that keeps adding files while they contain a structure kind, or a kind of answer of the reader on the intact file (layout x datatype class of readable datasets, string/compound reads, datatype class of readable attribute values, many attributes), that fewer than 8 (quick: 2) chosen files contain. T: every truncation length of files up to 16 KiB, for larger files every structure boundary +-{0,1,2,7,8} and every 64th byte; R: every position k of a failing pread64 (EIO) in the I/O sequence of a complete dump through the public reader (strace injection into a worker that runs on one locked OS thread; the strace log is the ground truth of which read failed; quick: k <= 160 on a third of the seeds); C: every position k of a failing and of a short ReadAt under ReadSuperblock, ReadObjectHeader (+ attributes), ReadDatasetFloat64/Strings/Compound, LoadLocalHeap, ParseSymbolTableNode, ReadGroupBTreeEntries, ReadGlobalHeapCollection at the addresses of up to six structures of each kind per file; W: every position k of a failing pwrite64 (ENOSPC) and of a failing pread64 (EIO) in 6 (thorough: 24) writer histories, half of which continue with a reopen session in which two handles on one dataset take turns modifying it. Oracle: each call result under the fault is an error or equals the result on the intact file; group member lists and attribute lists do not shrink; no panic, no dead worker; a write fault that no call reports must leave a file equal to the fault-free one. " +
+	Rule: "seed files: the 24 fixed library-written files of C07 (quick: 12) and, of the corpus files up to 64 KiB (space T: all of them in the thorough tier, every 10th plus a cover of 8 in the quick tier), every 4th (quick: 40th) plus a greedy cover that keeps adding files while they contain a structure kind, or a kind of answer of the reader on the intact file (layout x datatype class of readable datasets, string/compound reads, datatype class of readable attribute values, many attributes), that fewer than 8 (quick: 2) chosen files contain. T: every truncation length of files up to 16 KiB, for larger files every structure boundary +-{0,1,2,7,8} and every 64th byte; R: every position k of a failing pread64 (EIO) in the I/O sequence of a complete dump through the public reader (strace injection into a worker that runs on one locked OS thread; the strace log is the ground truth of which read failed; quick: k <= 160 on a third of the seeds); C: every position k of a failing and of a short ReadAt under ReadSuperblock, ReadObjectHeader (+ attributes), ReadDatasetFloat64/Strings/Compound, LoadLocalHeap, ParseSymbolTableNode, ReadGroupBTreeEntries, ReadGlobalHeapCollection at the addresses of up to six structures of each kind per file; W: every position k of a failing pwrite64 (ENOSPC) and of a failing pread64 (EIO) in 6 (thorough: 24) writer histories, half of which continue with a reopen session in which two handles on one dataset take turns modifying it. Oracle: each call result under the fault is an error or equals the result on the intact file; group member lists and attribute lists do not shrink; no panic, no dead worker; a write fault that no call reports must leave a file equal to the fault-free one, as seen through the library's reader and through the independent decoder (which also follows variable-length data; a third of the writer histories fill several global heap collections). " +
 		"non-trivial: at least one fault was delivered; distinct = (space, seed, block).",
 	Assumptions: []string{"strace's when=k counts per thread: the workers pin the goroutine that does the I/O to one OS thread (GOMAXPROCS=1, LockOSThread) and the log is checked for a delivered fault"},
 	Cases:       func(tier string) int { return len(c17Plan(tier)) },
